@@ -140,6 +140,53 @@ fn run_one(cmd: &str, input: &[u8]) -> String {
       }
       format!("OK {}", serde_json::Value::Array(outs))
     }
+    "history" => {
+      // input: JSON {"ops": [["add", {doc}], ["del", "id"], ["commit"], ["rollback"], ["restart"], ["compact"]]}
+      // "restart" = the process dies (writer leaked, nothing synced explicitly) and the index is reopened on the same storage.
+      // output: after the ops, a final commit of whatever a fresh writer recovers, then the live (id, stored fields) sorted by id.
+      let v: serde_json::Value = match serde_json::from_slice(input) { Ok(v) => v, Err(e) => return format!("ERR bad input {}", e) };
+      let path = PathBuf::from("/mem/idx");
+      let storage: Arc<dyn Storage> = Arc::new(InMemoryStorage::new(path.clone()));
+      let mk_opts = || searchlite_core::api::types::IndexOptions {
+        path: path.clone(), create_if_missing: true, enable_positions: true, bm25_k1: 0.9, bm25_b: 0.4,
+        storage: searchlite_core::api::types::StorageType::InMemory,
+      };
+      let mut idx = match searchlite_core::Index::create_with_storage(&path, searchlite_core::api::types::Schema::default_text_body(), mk_opts(), storage.clone()) { Ok(i) => i, Err(e) => return format!("ERR create {}", e) };
+      let mut writer = match idx.writer() { Ok(w) => Some(w), Err(e) => return format!("ERR writer {}", e) };
+      let empty = Vec::new();
+      let mut log: Vec<String> = Vec::new();
+      for op in v["ops"].as_array().unwrap_or(&empty) {
+        let kind = op[0].as_str().unwrap_or("");
+        match kind {
+          "add" => {
+            let doc: searchlite_core::api::types::Document = match serde_json::from_value(serde_json::json!({"fields": op[1]})) { Ok(d) => d, Err(e) => return format!("ERR doc {}", e) };
+            if let Err(e) = writer.as_mut().unwrap().add_document(&doc) { log.push(format!("add failed: {}", e)); }
+          }
+          "del" => { if let Err(e) = writer.as_mut().unwrap().delete_document(op[1].as_str().unwrap_or("")) { log.push(format!("del failed: {}", e)); } }
+          "commit" => { if let Err(e) = writer.as_mut().unwrap().commit() { log.push(format!("commit failed: {}", e)); } }
+          "rollback" => { if let Err(e) = writer.as_mut().unwrap().rollback() { log.push(format!("rollback failed: {}", e)); } }
+          "compact" => { if let Err(e) = idx.compact() { log.push(format!("compact failed: {}", e)); } }
+          "restart" => {
+            std::mem::forget(writer.take());
+            idx = match searchlite_core::Index::open_with_storage(mk_opts(), storage.clone()) { Ok(i) => i, Err(e) => return format!("ERR reopen {}", e) };
+            writer = match idx.writer() { Ok(w) => Some(w), Err(e) => return format!("ERR writer after restart {}", e) };
+          }
+          _ => {}
+        }
+      }
+      if let Err(e) = writer.as_mut().unwrap().commit() { log.push(format!("final commit failed: {}", e)); }
+      let reader = match idx.reader() { Ok(r) => r, Err(e) => return format!("ERR reader {}", e) };
+      let req: searchlite_core::api::types::SearchRequest = serde_json::from_value(serde_json::json!({
+        "query": {"type": "match_all"}, "limit": 1000, "return_stored": true, "highlight_field": null, "execution": "bm25"})).unwrap();
+      match reader.search(&req) {
+        Ok(r) => {
+          let mut live: Vec<(String, String)> = r.hits.iter().map(|h| (h.doc_id.clone(), h.fields.as_ref().map(|f| f["body"].to_string()).unwrap_or_default())).collect();
+          live.sort();
+          format!("OK {}", serde_json::json!({"live": live, "log": log}))
+        }
+        Err(e) => format!("ERR search {}", e),
+      }
+    }
     _ => "ERR unknown command".to_string(),
   }
 }
